@@ -247,6 +247,12 @@ def _get_pool():
     global _pool
     if _pool is None:
         from verif import interp
+        import resource
+        # a defect that makes a tiny program grow without bound must end as MemoryError in this worker, not take the machine down
+        soft, hard = resource.getrlimit(resource.RLIMIT_AS)
+        cap = 8 << 30
+        if soft == resource.RLIM_INFINITY or soft > cap:
+            resource.setrlimit(resource.RLIMIT_AS, (cap, hard))
         _pool = interp.Pool()
     return _pool
 
@@ -405,6 +411,12 @@ def work(job):
                 stats['bad'] += 1
                 if len(bad) < 200:
                     bad.append((v, cls, text, d))
+                if v == 'internal' and d.startswith('no result after'):
+                    # every such program costs two full budgets; three of them decide the matter for this shard
+                    stats['timeouts'] = stats.get('timeouts', 0) + 1
+                    if stats['timeouts'] >= 3:
+                        stats['aborted_after_timeouts'] = 1
+                        break
         if stats['n'] % 997 == 0:
             # periodic cross-check of the reused interpreter against a fresh one
             fresh = interp.Pool()
@@ -654,6 +666,11 @@ def main():
     if ck.want('tierb'):
         tier_b(ck, succ_all, fail_all)
     n = sum(t['n'] for t in tot.values())
+    aborted = sum(t.get('aborted_after_timeouts', 0) for t in tot.values())
+    if aborted:
+        # only reachable with violations already reported (each aborted shard recorded three programs without result)
+        ck.require(ck.n_viol > 0, 'shards aborted after timeouts but no violation was recorded')
+        ck.assume('%d shard(s) stopped after three programs that gave no result within the budget: the exploration below is NOT complete' % aborted)
     for f, t in tot.items():
         ck.part(f, **t)
         ck.require(t['ok_value'] > 0 and t['ok_fail'] > 0, 'family %s never produced both a value and a failure' % f)
@@ -665,7 +682,7 @@ def main():
                    '14-char alphabet in 4 quote styles; all statement sequences <= %d over %d templates) run on the real interpreter and the '
                    'reference; distinct_nontrivial = distinct (family, outcome kind) classes on which both agreed'
                    % (fams, 4 if ck.thorough else 3, 4 if ck.thorough else 3, len(X5_TEMPLATES)),
-              exhaustive=True)
+              exhaustive=not aborted)
 
 
 run_main(main)
